@@ -28,11 +28,21 @@ The ghost model is plain dict arithmetic on the operation names; it never reads 
 references out of objects known to be retained.  Transactions in the ghost: commit() makes the current values the committed
 snapshot and ends every savepoint; rollback() restores the committed snapshot and ends every savepoint; begin_nested()
 remembers the current values, rollback of that savepoint restores them, commit of it keeps them.
+Discarding operations (Session.expire(obj, [names]) / expire(obj) / expire_all() / refresh(obj[, names])): the ghost also keeps
+the values as of the last flush it observed (after_flush event: flushed := current); expiring or refreshing an attribute throws its
+pending change away, so the ghost's current value of every expired column goes back to the flushed one (refresh expires first,
+THEN autoflushes the rest of the session, then loads: the ghost is updated before the real call).  Expiring a collection does not
+change any row (the child's own many-to-one attribute carries the foreign key).  An object some of whose attributes were expired
+since the last flush may or may not still count as modified: clause R demands neither its presence nor its release until the
+next flush.
 
 Scope (exact text in coverage.scope): (1) default Session, ALL sequences over OPS (lengths 1..4 quick / 1..5 thorough);
 (2) Session-configuration scope: autobegin x autoflush x expire_on_commit (8 Sessions), ALL sequences over OPS + explicit
 begin(), begin_nested(), commit / rollback of the innermost savepoint (lengths 1..3 quick / 1..4 thorough); sequences with
-an operation that cannot act (no reference to modify through, begin() inside a transaction, no savepoint) are pruned.
+an operation that cannot act (no reference to modify through, begin() inside a transaction, no savepoint) are pruned;
+(3) discard scope: default Session, ALL sequences over OPS + DISCARD_OPS (partial expire / partial refresh of a scalar, partial
+expire of a collection, full expire / refresh of the parent, partial expire of a child's scalar, expire_all), lengths 1..3 quick /
+1..4 thorough, pruned the same way.
 Every history ends with: drop every reference, gc.collect(), commit, compare the tables with the ghost.
 """
 import copy
@@ -50,10 +60,13 @@ OPS = ["mod_x1", "mod_x2", "append_child", "remove_child", "mod_child", "reparen
 # transaction-control operations of the Session-configuration scope (appended, so the indices of OPS stay valid)
 TX_OPS = ["begin", "begin_nested", "commit_nested", "rollback_nested"]
 OPS2 = OPS + TX_OPS
+# operations that throw pending changes away without a rollback (discard scope)
+DISCARD_OPS = ["expire_x1", "refresh_x1", "expire_children1", "expire_p1", "refresh_p1", "expire_child_y", "expire_all"]
+OPS3 = OPS + DISCARD_OPS
 DEFAULT_CFG = dict(autobegin=True, autoflush=True, expire_on_commit=True)
 CONFIGS = [dict(autobegin=ab, autoflush=af, expire_on_commit=eoc) for ab in (True, False) for af in (True, False) for eoc in (True, False)]
 
-_G = dict(installed=False, engine=None, kfail=[], touched=None, flushes=0)
+_G = dict(installed=False, engine=None, kfail=[], touched=None, flushes=0, ghost=None)
 
 
 # ------------------------------------------------------------------------------------------ run-time contracts (K1-K3)
@@ -101,6 +114,9 @@ def install():
         _G["flushes"] += 1
         if _G["touched"] is not None:
             _G["touched"].clear()
+        if _G["ghost"] is not None:
+            _G["ghost"].flushed = copy.deepcopy(_G["ghost"].cur)
+            _G["ghost"].maybe.clear()
     _G["installed"] = True
 
 
@@ -114,6 +130,9 @@ class Ghost:
         self.touched = set()        # identity names ("p",1) / ("c",2) mutated since the last observed flush
         self.in_tx = False          # a transaction was begun EXPLICITLY (begin / begin_nested) and not ended since (autobegin=False only)
         self.nested = []            # [(SessionTransaction of begin_nested(), snapshot of cur taken there)]
+        self.flushed = copy.deepcopy(self.cur)      # values as of the last observed flush (= what an expired attribute reloads)
+        self.maybe = set()          # touched identity names some of whose attributes were expired since: modified or not is open
+        self.discards = 0           # discarding operations that actually threw a pending change away
 
 
 def reset_db(engine):
@@ -197,6 +216,40 @@ def _load(s, refs, P):
     refs["p2"] = s.get(P, 2)
 
 
+def _expire(s, refs, name, attrs):
+    p = refs.get(name)
+    if p is None:
+        return False
+    s.expire(p, attrs)
+    return True
+
+
+def _refresh(s, refs, name, attrs):
+    p = refs.get(name)
+    if p is None:
+        return False
+    s.refresh(p, attrs)
+    return True
+
+
+def _expire_child_y(s, refs, g):
+    """partial expire of the scalar of p1's last child, if that child is persistent (its row was flushed)"""
+    p = refs.get("p1")
+    if p is None or not p.children:
+        return None
+    ch = p.children[-1]
+    if ch.id not in g.flushed["c"]:
+        return None
+    s.expire(ch, ["y"])
+    return ch.id
+
+
+def _mark_discarded(g, name):
+    if name in g.touched:
+        g.touched.discard(name)
+        g.maybe.add(name)
+
+
 def _names_reachable(s, refs, touched, m):
     """identity names that something retained may keep alive: closure over loaded relationship values, captured
     original values (committed_state) and pending mutations, from application refs + ghost-touched + new + deleted"""
@@ -234,7 +287,7 @@ def _idmap_names(s, m):
 def _gc_clause(s, refs, g, m, fails, where):
     """clause R at a gc.collect(); returns True when a ghost-touched object was unreachable from the application"""
     app = _names_reachable_app(refs, m)
-    may_live = _names_reachable(s, refs, g.touched, m)
+    may_live = _names_reachable(s, refs, g.touched | g.maybe, m)
     before = _idmap_names(s, m)
     gc.collect()
     after = _idmap_names(s, m)
@@ -318,11 +371,14 @@ def _apply(op, s, refs, g, m):
     elif op == "commit":
         s.commit()          # documented: commits the outermost transaction, releasing every SAVEPOINT in effect
         g.committed = copy.deepcopy(g.cur)
+        g.flushed = copy.deepcopy(g.cur)
         g.in_tx, g.nested = False, []
     elif op == "rollback":
         s.rollback()        # documented: rolls back the outermost transaction, discarding nested ones
         g.cur = copy.deepcopy(g.committed)
+        g.flushed = copy.deepcopy(g.committed)
         g.touched.clear()
+        g.maybe.clear()
         g.in_tx, g.nested = False, []
     elif op == "load":
         _load(s, refs, m.P)
@@ -343,7 +399,38 @@ def _apply(op, s, refs, g, m):
         h, snap = g.nested.pop()
         h.rollback()                                                    # ROLLBACK TO; changes since begin_nested() are discarded
         g.cur = snap
+        g.flushed = copy.deepcopy(snap)          # begin_nested() flushed before the SAVEPOINT
         g.touched.clear()
+        g.maybe.clear()
+    elif op in ("expire_x1", "refresh_x1", "expire_p1", "refresh_p1"):
+        if refs.get("p1") is not None:
+            # ghost first: refresh() expires, THEN autoflushes (after_flush takes the ghost's snapshot), then loads
+            g.discards += g.cur["p"][1] != g.flushed["p"][1]
+            g.cur["p"][1] = g.flushed["p"][1]
+            _mark_discarded(g, ("p", 1))
+            (_refresh if op.startswith("refresh") else _expire)(s, refs, "p1", ["x"] if op.endswith("x1") else None)
+            applied = 1
+    elif op == "expire_children1":
+        if refs.get("p1") is not None:
+            _mark_discarded(g, ("p", 1))
+            _expire(s, refs, "p1", ["children"])
+            applied = 1
+    elif op == "expire_child_y":
+        cid = _expire_child_y(s, refs, g)
+        if cid is not None:
+            g.discards += g.cur["c"][cid][1] != g.flushed["c"][cid][1]
+            g.cur["c"][cid] = (g.cur["c"][cid][0], g.flushed["c"][cid][1])
+            _mark_discarded(g, ("c", cid))
+            applied = 1
+    elif op == "expire_all":
+        s.expire_all()      # every persistent object: all pending attribute changes are discarded (pending new objects are not expired)
+        for kind in ("p", "c"):
+            for i, v in g.flushed[kind].items():
+                g.discards += g.cur[kind][i] != v
+                g.cur[kind][i] = v
+        for name in list(g.touched):
+            _mark_discarded(g, name)
+        applied = 1
     return applied, nontrivial
 
 
@@ -353,6 +440,8 @@ def _inapplicable(op, refs, g, cfg):
     if op in ("mod_x1", "mod_x2", "append_child", "remove_child", "mod_child", "reparent", "replace_children"):
         need = ("p2" if op == "mod_x2" else "p1",) + (("p2",) if op == "reparent" else ())
         return any(refs.get(n) is None for n in need)
+    if op in DISCARD_OPS and op != "expire_all":
+        return refs.get("p1") is None
     if op == "begin":
         return cfg["autobegin"] or g.in_tx           # autobegin session: a transaction may already be in progress implicitly
     if op in ("commit_nested", "rollback_nested"):
@@ -370,6 +459,7 @@ def run_history(names, engine=None, cfg=None, prune=False):
     reset_db(engine)
     g = Ghost()
     _G["touched"] = g.touched
+    _G["ghost"] = g
     del _G["kfail"][:]
     fails = []
     nontrivial = False
@@ -428,9 +518,10 @@ def run_history(names, engine=None, cfg=None, prune=False):
             s.close()
         except Exception as ex:  # pragma: no cover
             fails.append(f"close raised {type(ex).__name__}")
+    _G["ghost"] = None
     if pruned:
         _G["touched"] = None
-        return dict(pruned=True, fails=[], nontrivial=False, applied=0, retried=0, model=g.cur, db=g.cur)
+        return dict(pruned=True, fails=[], nontrivial=False, applied=0, retried=0, discards=0, model=g.cur, db=g.cur)
     db = read_db(engine)
     if db != g.cur:
         for kind in ("p", "c"):
@@ -439,7 +530,7 @@ def run_history(names, engine=None, cfg=None, prune=False):
                     fails.append(f"S: row {kind}{i} is {db[kind].get(i, '<no row>')} in the database, last assigned {g.cur[kind].get(i, '<no row>')}")
     fails += sorted(set(_G["kfail"]))
     _G["touched"] = None
-    return dict(fails=fails, nontrivial=nontrivial, applied=applied, retried=retried, model=g.cur, db=db)
+    return dict(fails=fails, nontrivial=nontrivial, applied=applied, retried=retried, discards=g.discards, model=g.cur, db=db)
 
 
 # ------------------------------------------------------------------------------------------ worker / entry points
@@ -452,13 +543,29 @@ def _worker(job):
         gc.collect()                           # long-lived objects out of the collector's sight: gc.collect() inside a
         gc.freeze()                            # history then only walks the objects the history created (10x faster)
     res = dict(evaluations=0, nontrivial=0, applied_ops=0, failures=[], samples=[], flushes=0,
-               cfg_evaluations=0, cfg_pruned=0, cfg_nontrivial=0, cfg_refused_then_begun=0, cfg_samples=[], cfg_per_config={})
+               cfg_evaluations=0, cfg_pruned=0, cfg_nontrivial=0, cfg_refused_then_begun=0, cfg_samples=[], cfg_per_config={},
+               disc_evaluations=0, disc_pruned=0, disc_nontrivial=0, disc_effective=0, disc_effective_nontrivial=0, disc_samples=[])
     f0 = _G["flushes"]
     cfg = job.get("cfg")
-    ops = OPS2 if cfg else OPS
+    disc = job.get("discard", False)
+    ops = OPS3 if disc else OPS2 if cfg else OPS
     for idxs in H.job_sequences(len(ops), job):
         names = [ops[k] for k in idxs]
-        if cfg:
+        if disc:
+            if not any(o in DISCARD_OPS for o in names):
+                continue                                    # a history of scope (1)
+            r = run_history(names, prune=True)
+            if r.get("pruned"):
+                res["disc_pruned"] += 1
+                continue
+            res["disc_evaluations"] += 1
+            res["disc_nontrivial"] += bool(r["nontrivial"])
+            res["disc_effective"] += bool(r["discards"])
+            if r["nontrivial"] and r["discards"]:
+                res["disc_effective_nontrivial"] += 1
+                if not res["disc_samples"] and len(names) == job["length"]:
+                    res["disc_samples"].append(dict(ops=names, then="drop refs; gc.collect(); commit", database=_jsonable(r["db"])))
+        elif cfg:
             r = run_history(names, cfg=cfg, prune=True)
             if r.get("pruned"):
                 res["cfg_pruned"] += 1
@@ -502,6 +609,10 @@ def cfg_lengths_for(tier):
     return (1, 2, 3) if tier == "quick" else (1, 2, 3, 4)
 
 
+def disc_lengths_for(tier):
+    return (1, 2, 3) if tier == "quick" else (1, 2, 3, 4)
+
+
 def run(run, tier, seed, args):
     t0 = time.time()
     lengths = lengths_for(tier)
@@ -509,6 +620,8 @@ def run(run, tier, seed, args):
     cfg_lengths = cfg_lengths_for(tier)
     for cfg in CONFIGS:
         joblist += H.jobs(len(OPS2), cfg_lengths, min_jobs=18, cfg=cfg)
+    disc_lengths = disc_lengths_for(tier)
+    joblist += H.jobs(len(OPS3), disc_lengths, min_jobs=100, discard=True)
     if seed:
         import random
         random.Random(seed).shuffle(joblist)
@@ -531,8 +644,8 @@ def run(run, tier, seed, args):
                                                                actual=d["broken"], reason="bounded run-time contract check"))
     samples = sorted(agg.get("samples", []), key=lambda x: (-len(x["ops"]), x["ops"]))
     run.coverage.update(
-        evaluations=agg["evaluations"] + agg["cfg_evaluations"],
-        distinct_nontrivial=agg["nontrivial"] + agg["cfg_nontrivial"],
+        evaluations=agg["evaluations"] + agg["cfg_evaluations"] + agg["disc_evaluations"],
+        distinct_nontrivial=agg["nontrivial"] + agg["cfg_nontrivial"] + agg["disc_nontrivial"],
         rule="every operation sequence of the scope is enumerated once (itertools.product: all distinct); a history is non-trivial when, at "
              "some gc.collect() (a `gc` operation or the final one), an object with unflushed changes according to the ghost model was "
              "not reachable from any reference the application still held — i.e. the hypothesis of the property was exercised; counted per history. "
@@ -540,8 +653,12 @@ def run(run, tier, seed, args):
              "cannot act in the ghost's state (modification without a reference, begin() inside a transaction or on an autobegin session, "
              "commit_nested / rollback_nested without a savepoint) equals a shorter sequence and is pruned (cfg_pruned); non-trivial as above; "
              "cfg_refused_then_begun counts the non-trivial histories in which an autobegin=False session refused an operation outside a "
-             "transaction and the operation was repeated after begin()",
-        samples=samples[:3] + samples[-2:] + sorted(agg.get("cfg_samples", []), key=lambda x: json.dumps(x, sort_keys=True))[:3],
+             "transaction and the operation was repeated after begin().  Discard scope: every sequence containing at least one discarding operation "
+             "is enumerated once (the others belong to scope 1), pruned the same way; non-trivial as above; disc_effective counts the histories in which "
+             "a discarding operation threw away a pending change the ghost knew of (expired value != value as of the last flush), "
+             "disc_effective_nontrivial those among them that are also non-trivial",
+        samples=samples[:3] + samples[-2:] + sorted(agg.get("cfg_samples", []), key=lambda x: json.dumps(x, sort_keys=True))[:3]
+        + sorted(agg.get("disc_samples", []), key=lambda x: json.dumps(x, sort_keys=True))[:2],
         exhaustive=True,
         scope=f"2 parent rows (p1 with 2 children, p2), SQLite :memory:, one Session per history; ALL sequences of length in {list(lengths)} "
               f"over the {len(OPS)} operations {OPS} (scalar modify on either parent, append / remove / modify / re-parent a child, replace the "
@@ -550,9 +667,14 @@ def run(run, tier, seed, args):
               f"SESSION-CONFIGURATION scope: for each of the {len(CONFIGS)} Sessions autobegin x autoflush x expire_on_commit in (True, False), ALL "
               f"sequences of length in {list(cfg_lengths)} over the {len(OPS2)} operations OPS + {TX_OPS} (explicit begin(), begin_nested(), commit / "
               f"rollback of the innermost savepoint), same ending; with autobegin=False an operation refused outside a transaction "
-              f"(InvalidRequestError) is repeated after begin(), and in_transaction() must equal 'explicitly begun and not ended' after every operation",
+              f"(InvalidRequestError) is repeated after begin(), and in_transaction() must equal 'explicitly begun and not ended' after every operation.  "
+              f"DISCARD scope: default Session, ALL sequences of length in {list(disc_lengths)} over the {len(OPS3)} operations OPS + {DISCARD_OPS} that contain a "
+              f"discarding operation (Session.expire(p1, ['x']), refresh(p1, ['x']), expire(p1, ['children']), expire(p1), refresh(p1), expire(last child of p1, ['y']), "
+              f"expire_all()), same ending",
         cfg_evaluations=agg["cfg_evaluations"], cfg_pruned=agg["cfg_pruned"], cfg_nontrivial=agg["cfg_nontrivial"],
         cfg_refused_then_begun=agg["cfg_refused_then_begun"], cfg_evaluations_per_config=agg.get("cfg_per_config", {}),
+        disc_evaluations=agg["disc_evaluations"], disc_pruned=agg["disc_pruned"], disc_nontrivial=agg["disc_nontrivial"], disc_effective=agg["disc_effective"],
+        disc_effective_nontrivial=agg["disc_effective_nontrivial"],
         operations_applied=agg["applied_ops"],
         flushes_observed=agg["flushes"],
         contract_failures=len(failures),
@@ -564,6 +686,7 @@ def run(run, tier, seed, args):
         "clause R (release) reads __dict__ / committed_state / pending mutations of retained objects only to over-approximate what they keep alive",
         "SQLite :memory: (sqlite3 autocommit=False mode, so that SAVEPOINT is transactional) only; no delete-orphan cascade (a removed child keeps its row with a NULL parent)",
         "Session.commit() / rollback() end the outermost transaction and every savepoint (documented 2.0 behaviour); begin_nested() and a savepoint commit flush first",
+        "an expired attribute reloads the value as of the last flush of the same transaction (the ghost's `flushed` snapshot, taken at the after_flush event)",
         "bounded: histories longer than the stated length, more objects, join_transaction_mode / external connections, two-phase and pickled/merged objects are outside",
     ]
 
